@@ -41,7 +41,7 @@ for kind, fn in (("text", "skip_take_chars (character positions)"), ("bytes", "s
 ob("O-C10-splice", ["C10", "C05"], J, "c10_bytes_splice_enum", "bytes_splice(b, skip, take, r) leaves old[..skip] ++ r ++ old[skip+take..] (growing, shrinking, inserting, deleting), the kernel behind slice updates on strings", [LIB + "bytes_splice"], label="bounded", bound="every (skip, take) inside a 4-byte buffer x replacement lengths 0..=3, enumerated concretely", composes_dependency=True)
 
 ob("O-C10-read-arr", ["C10", "C02"], J, "c10_read_array_index", "the real Val::index_opt on a 3-element array: `.[i]` for every i in -5..=5 yields the element at (i >= 0 ? i : 3 + i) when that is inside and nothing otherwise - the accessor applies the position arithmetic of O-C10-abs-index to the array's own length", [LIB + "Val::index_opt"], label="bounded", bound="one 3-element array x indices -5..=5, enumerated concretely", composes_dependency=True)
-ob("O-C10-read-bytes", ["C10", "C13"], J, "c10_read_bytes_index", "the real Val::index_opt on a byte string (3 bytes, two of them a multi-byte UTF-8 sequence): `.[i]` for i in -5..=5 yields the byte (not the character) at the model position as a number, nothing outside", [LIB + "Val::index_opt"], label="bounded", bound="one 3-byte string x indices -5..=5, enumerated concretely", composes_dependency=True)
+ob("O-C10-read-bytes", ["C10", "C13"], J, "c10_read_bytes_index", "the real Val::index_opt on a byte string (3 bytes, two of them a multi-byte UTF-8 sequence): `.[i]` for i in {-1, 1, 3} yields the byte (not the character) at the model position as a number, nothing outside", [LIB + "Val::index_opt"], label="point", kind="point", composes_dependency=True)
 
 for k, what in (("exp", "literals with an exponent and no dot (1e1000, 1E2, -2e-3) are decimals whose text is kept character for character"),
                 ("frac", "literals with a fraction (1.10, -0.0, 1.5e3) are decimals whose text is kept character for character, trailing zero included"),
